@@ -195,6 +195,50 @@ def imports(kind, which, mode):
     return why is None
 
 
+def tdmix(e10, e20, e21, td0, td1, td2):
+    """Every layer tearDown that raised makes the verdict 'failed' and is recorded, also when a later tearDown of the same
+    pass raises NotImplementedError and the run continues in subprocesses (the C01 world: three layers, all own passing
+    tests; runner.resume_tests replaced by a recorder)."""
+    global LAST
+    from harness import c01
+    from vt import runworld as RW
+    W.reset()
+    e10, e20, e21 = cb(e10), cb(e20), cb(e21)
+    td = [ci(t, 0, 2) for t in (td0, td1, td2)]
+    with untraced():
+        layers, bases = c01.build(e10, e20, e21, [0, 0, 0], td, False)
+        lt = [(layers[i], [W.mk_test('t%da' % i, W.PASS)]) for i in (2, 0, 1)]
+    o = RW.options([])
+    r = RW.make_runner(o, lt)
+    handed = []
+
+    def fake_resume(script_parts, options, features, layers_, failures, errors, skipped, cwd=None):
+        handed.extend(n for n, _l, _t in layers_)
+        return 0
+    orig = R.resume_tests
+    R.resume_tests = fake_resume
+    try:
+        r.run_tests()
+    finally:
+        R.resume_tests = orig
+    with untraced():
+        attempted = [e[2] for e in W.TRACE if e[1] == 'td']
+        raised = sorted('Layer: w.%s.tearDown' % n for n in attempted if td[int(n[1])] == 1)
+        rec = sorted(str(t) for t, _ in r.errors)
+        why = None
+        if rec != raised:
+            why = 'tearDown of %r raised, recorded errors are %r' % (raised, rec)
+        elif bool(r.failed) != bool(raised):
+            why = 'verdict failed=%r although tearDown of %r raised' % (r.failed, raised)
+    LAST = ('tdmix', e10, e20, e21, tuple(td), why, tuple(attempted), tuple(handed))
+    return why is None
+
+
+def tdmix_reach(*a):
+    tdmix(*a)
+    return LAST[5] is None and len(LAST[7]) >= 1 and 1 in LAST[4]
+
+
 def exitcode(failed_world):
     """zope.testrunner.run() exits with int(failed)."""
     global LAST
@@ -271,6 +315,12 @@ SPEC = {
          'reach': 'options2_reach', 'reach_bounds': {'quick': 'mode == 1 and ka == 2 and opt == 0 and not imp', 'thorough': 'mode == 1 and ka == 2 and opt == 0 and not imp'},
          'timeout': {'quick': 400, 'thorough': 1700},
          'fidelity': [dict(mode=0, ka=2, opt=0, imp=False), dict(mode=1, ka=3, opt=3, imp=True), dict(mode=2, ka=1, opt=2, imp=True), dict(mode=4, ka=0, opt=1, imp=True)]},
+        {'name': 'tdmix', 'fn': 'tdmix', 'params': [('e10', 'bool'), ('e20', 'bool'), ('e21', 'bool'), ('td0', 'int'), ('td1', 'int'), ('td2', 'int')],
+         'call': 'e10, e20, e21, td0, td1, td2',
+         'bounds': {'quick': '0 <= td0 <= 2 and 0 <= td1 <= 2 and 0 <= td2 <= 2', 'thorough': '0 <= td0 <= 2 and 0 <= td1 <= 2 and 0 <= td2 <= 2'},
+         'slices': {'quick': ['td0 == %d' % t for t in range(3)], 'thorough': ['td0 == %d and td1 == %d' % (t, u) for t in range(3) for u in range(3)]},
+         'reach': 'tdmix_reach', 'timeout': {'quick': 300, 'thorough': 600},
+         'fidelity': [dict(e10=True, e20=False, e21=False, td0=2, td1=1, td2=0), dict(e10=False, e20=False, e21=False, td0=1, td1=2, td2=1)]},
         {'name': 'imports', 'fn': 'imports', 'params': [('kind', 'int'), ('which', 'int'), ('mode', 'int')], 'call': 'kind, which, mode',
          'bounds': {'quick': '0 <= kind < %d and 0 <= which <= 1 and 0 <= mode <= 1' % len(IMP_FAIL), 'thorough': '0 <= kind < %d and 0 <= which <= 1 and 0 <= mode <= 1' % len(IMP_FAIL)},
          'slices': {'quick': ['mode == 0', 'mode == 1'], 'thorough': ['mode == 0', 'mode == 1']},
